@@ -40,7 +40,9 @@ func (w *flagWatcher) OnUnreachable(id string) { w.log = append(w.log, "unreacha
 func (w *flagWatcher) OnReachable(id string)   { w.log = append(w.log, "reachable") }
 func (w *flagWatcher) OnExpired(id string)     { w.log = append(w.log, "expired") }
 
-func runC11FD(seq []c11fdEvent) (sig, msg string, flagged, restored, swept int) {
+// prop selects the oracle: "C11" the flags against the exact reference,
+// "C14" the fold of the watcher's notifications against the flags.
+func runC11FD(prop string, seq []c11fdEvent) (sig, msg string, flagged, restored, swept int) {
 	defer func() {
 		if r := recover(); r != nil {
 			sig, msg = "panic", fmt.Sprintf("%v: panic: %v", seq, r)
@@ -65,8 +67,41 @@ func runC11FD(seq []c11fdEvent) (sig, msg string, flagged, restored, swept int) 
 	ref.arrive(clock)
 	refFlag := false
 	thr := big.NewRat(int64(gossip.VSuspicionThreshold), 1)
+	foldOK := func(i int) (string, string) {
+		if prop != "C14" {
+			return "", ""
+		}
+		// fold of the membership notifications about nB
+		state := "reachable"
+		for _, l := range w.log {
+			switch l {
+			case "unreachable":
+				state = "unreachable"
+			case "reachable":
+				state = "reachable"
+			case "expired":
+				state = "gone"
+			}
+		}
+		n, ok := st.Node("nB")
+		view := "gone"
+		if ok && n.Unreachable {
+			view = "unreachable"
+		} else if ok {
+			view = "reachable"
+		}
+		if view != state {
+			return "notification-fold-differs-from-view", fmt.Sprintf("%v, after event %d: the view shows nB as %s, folding the notifications %v gives %s", seq, i, view, w.log, state)
+		}
+		return "", ""
+	}
 	for i, e := range seq {
 		desc := func() string { return fmt.Sprintf("%v, at event %d", seq, i) }
+		if i > 0 {
+			if s, m := foldOK(i - 1); s != "" {
+				return s, m, flagged, restored, swept
+			}
+		}
 		switch e.Kind {
 		case "hb":
 			clock += e.Gap
@@ -88,6 +123,16 @@ func runC11FD(seq []c11fdEvent) (sig, msg string, flagged, restored, swept int) 
 				break
 			}
 			want := cmp > 0
+			if prop != "C11" {
+				if want && !refFlag {
+					flagged++
+				}
+				if !want && refFlag {
+					restored++
+				}
+				refFlag = n.Unreachable
+				break
+			}
 			if n.Unreachable != want {
 				pf, _ := phi.Float64()
 				if want {
@@ -109,6 +154,14 @@ func runC11FD(seq []c11fdEvent) (sig, msg string, flagged, restored, swept int) 
 			// a sweep long after any expiry that is armed
 			st.RemoveExpiredAt(time.Now().Add(3 * gossip.VNodeExpiry))
 			_, ok := st.Node("nB")
+			if prop != "C11" {
+				if !ok {
+					swept++
+					s, m := foldOK(i)
+					return s, m, flagged, restored, swept
+				}
+				break
+			}
 			if ok == refFlag {
 				if refFlag {
 					return "flagged-node-not-swept", desc() + ": nB is flagged and its expiry has passed, the sweep kept it", flagged, restored, swept
@@ -121,10 +174,13 @@ func runC11FD(seq []c11fdEvent) (sig, msg string, flagged, restored, swept int) 
 			}
 		}
 	}
+	if s, m := foldOK(len(seq) - 1); s != "" {
+		return s, m, flagged, restored, swept
+	}
 	return "", "", flagged, restored, swept
 }
 
-func c11DetectorLoop(run *evid.Run) {
+func c11DetectorLoop(run *evid.Run, prop string) {
 	gaps := []int64{100, 1000, 15000, 45000}
 	depth := 5
 	if run.Thorough() {
@@ -146,13 +202,13 @@ func c11DetectorLoop(run *evid.Run) {
 		nodes++
 		if len(prefix) == depth {
 			seqs++
-			sig, msg, f, r, s := runC11FD(prefix)
+			sig, msg, f, r, s := runC11FD(prop, prefix)
 			flagged += f
 			restored += r
 			swept += s
 			if sig != "" && !reported[sig] {
 				reported[sig] = true
-				run.Violation("C11", sig, msg, map[string]any{"engine": "E3-C11-fd", "sequence": append([]c11fdEvent(nil), prefix...)})
+				run.Violation(prop, sig, msg, map[string]any{"engine": "E3-C11-fd", "oracle": prop, "sequence": append([]c11fdEvent(nil), prefix...)})
 			}
 			return
 		}
@@ -166,19 +222,23 @@ func c11DetectorLoop(run *evid.Run) {
 	}
 	run.Set("detector_loop", map[string]any{"alphabet": alphabet, "depth": depth, "sequences": seqs, "histories": nodes, "flagged": flagged, "restored_after_outage": restored, "swept": swept,
 		"explanation": "real clusterState + real accrual detector on a harness clock; every event sequence of the stated depth; after every liveness tick the unreachable flag equals (silence > threshold x mean interval) computed exactly, reachable nodes carry no expiry and are never swept"})
-	fmt.Printf("  C11 detector loop: sequences=%d flagged=%d restored=%d swept=%d\n", seqs, flagged, restored, swept)
+	fmt.Printf("  "+prop+" detector loop: sequences=%d flagged=%d restored=%d swept=%d\n", seqs, flagged, restored, swept)
 }
 
 func init() {
 	replayers["E3-C11-fd"] = func(path string) int {
 		var doc struct {
 			Replay struct {
+				Oracle   string       `json:"oracle"`
 				Sequence []c11fdEvent `json:"sequence"`
 			} `json:"replay"`
 		}
 		readJSON(path, &doc)
-		s1, m1, _, _, _ := runC11FD(doc.Replay.Sequence)
-		s2, m2, _, _, _ := runC11FD(doc.Replay.Sequence)
+		if doc.Replay.Oracle == "" {
+			doc.Replay.Oracle = "C11"
+		}
+		s1, m1, _, _, _ := runC11FD(doc.Replay.Oracle, doc.Replay.Sequence)
+		s2, m2, _, _, _ := runC11FD(doc.Replay.Oracle, doc.Replay.Sequence)
 		fmt.Println(s1, m1)
 		if s1 != s2 || m1 != m2 {
 			evid.Fatal("replay is not deterministic")
